@@ -137,6 +137,14 @@ fn queue_file_range(
                     stat_tx.send(StatusUpdate::Error(XcpError::CopyError(e.to_string())))
                 }
             };
+            // The last job to finish applies the metadata.
+            let stat_result = stat_result.and_then(|_| match Arc::into_inner(harc) {
+                Some(handle) => match handle.finalise() {
+                    Ok(_) => Ok(()),
+                    Err(e) => stat_tx.send(StatusUpdate::Error(XcpError::CopyError(e.to_string()))),
+                },
+                None => Ok(()),
+            });
             if let Err(e) = stat_result {
                 let msg = format!("Failed to send status update message. This should not happen; aborting. Error: {}", e);
                 error!("{}", msg);
@@ -159,6 +167,7 @@ fn queue_file_blocks(
 
     if handle.try_reflink()? {
         info!("Reflinked, skipping rest of copy");
+        handle.finalise()?;
         return Ok(len);
     }
 
@@ -172,20 +181,27 @@ fn queue_file_blocks(
         queue_file_range(&harc, 0..len, pool, status_channel)
     };
 
-    if probably_sparse(&harc.infd)? {
+    let queued = if probably_sparse(&harc.infd)? {
         if let Some(extents) = map_extents(&harc.infd)? {
             let sparse_map = merge_extents(extents)?;
             let mut queued = 0;
             for ext in sparse_map {
                 queued += queue_file_range(&harc, ext.into(), pool, status_channel)?;
             }
-            Ok(queued)
+            queued
         } else {
-            queue_whole_file()
+            queue_whole_file()?
         }
     } else {
-        queue_whole_file()
+        queue_whole_file()?
+    };
+
+    // If every job has already finished (or none was needed) we hold
+    // the last reference.
+    if let Some(handle) = Arc::into_inner(harc) {
+        handle.finalise()?;
     }
+    Ok(queued)
 }
 
 // Dispatch worker; receives queued files and hands them to
